@@ -379,10 +379,25 @@ fn queue_case(
 //============ Part C =========================================================
 
 fn restart_case(
-    r: &mut Report, args: &Args, k: usize, rng: &mut Rng,
+    r: &mut Report, args: &Args, k: usize, rng: &mut Rng, large: bool,
 ) -> Option<(String, String, Value)> {
-    let dir = args.work.join(format!("restart{k}"));
+    let dir = args.work.join(format!("restart{k}{}", if large { "L" } else { "" }));
     let mut w = World::create(WorldCfg::new(&dir));
+    if large {
+        // more CAs than the start-up code's "only a handful of CAs"
+        // threshold (5), so that its other branch runs
+        for i in 0..5 {
+            let out = hist::apply(&mut w, &Op::AddCa {
+                ca: format!("x{i}"), parent: "ta".into(),
+                asn: format!("AS651{i}0"), v4: format!("10.{}.0.0/16", 100 + i),
+                v6: "".into() });
+            if !out.is_ok() {
+                r.inconclusive(format!("restart case setup: {out:?}"));
+                return None
+            }
+        }
+        let _ = hist::apply(&mut w, &Op::Quiesce);
+    }
     for op in [
         Op::AddCa { ca: "a".into(), parent: "ta".into(),
             asn: "AS65000-AS65005".into(), v4: "10.0.0.0/16".into(),
@@ -427,9 +442,28 @@ fn restart_case(
             claimed.push(key.as_str().split_once('-').unwrap().1.to_string());
         }
     }
-    let pending_before: BTreeSet<String> =
-        w.pending().into_iter().map(|p| p.1).collect();
-    r.distinct("restart_k", k.to_string());
+    // the state a crash inside the completion of a parent synchronisation
+    // leaves behind (running and old pending entry deleted, the new pending
+    // entry not yet stored): no entry at all for that name. The start-up
+    // code must schedule the parent refresh again.
+    let lost_sync = if large { "sync_x3_with_parent_ta" }
+        else { "sync_b_with_parent_a" };
+    if !claimed.iter().any(|c| c == lost_sync) {
+        let pend = krill::commons::storage::Ident::make("pending");
+        for p in w.pending() {
+            if p.1 == lost_sync {
+                if let Ok(key) = krill::commons::storage::Ident::from_str(&p.2) {
+                    let _ = w.tasks_kv.execute(None, |kv| {
+                        kv.delete(Some(pend), key)
+                    });
+                }
+            }
+        }
+        r.count("restart_cases_with_lost_sync_entry", 1);
+    }
+    let pending_before: BTreeSet<String> = w.pending().into_iter()
+        .map(|p| p.1).collect();
+    r.distinct("restart_k", format!("{k}{}", if large { "L" } else { "" }));
     // "crash": drop the instance, start again on the same directory
     let mut w = w.restart();
     r.eval();
@@ -444,8 +478,9 @@ fn restart_case(
             lost.push(format!("(pending) {name}"));
         }
     }
-    let wit = json!({"k": k, "claimed": claimed, "running_after": running,
-                     "pending_after": pending});
+    let wit = json!({"k": k, "large": large, "claimed": claimed,
+                     "running_after": running, "pending_after": pending,
+                     "lost_sync_entry": lost_sync});
     if !lost.is_empty() {
         return Some((
             format!("restart-leaves-running:k={k}"),
@@ -482,6 +517,9 @@ fn restart_case(
         "sync_a_with_parent_ta".to_string(),
         "sync_b_with_parent_a".to_string(),
     ];
+    if large {
+        for i in 0..5 { recurring.push(format!("sync_x{i}_with_parent_ta")) }
+    }
     let missing: Vec<String> = recurring.drain(..)
         .filter(|n| !present.contains(n)).collect();
     r.count("recurring_checks", 1);
@@ -887,7 +925,8 @@ fn main() {
                      else { "violation reproduced" });
         } else if let Some(k) = doc["witness"]["k"].as_u64() {
             let mut rng = Rng::new(doc["seed"].as_u64().unwrap_or(1));
-            let res = restart_case(&mut r, &args, k as usize, &mut rng);
+            let large = doc["witness"]["large"].as_bool().unwrap_or(false);
+            let res = restart_case(&mut r, &args, k as usize, &mut rng, large);
             println!("replay: {}", if res.is_none() { "no violation" }
                      else { "violation reproduced" });
         } else {
@@ -900,7 +939,11 @@ fn main() {
     // Part C: restart with k running tasks; k spread over the shards
     let ks = [0usize, 1, 2, 3, 5];
     let my_k = ks[(args.shard as usize) % ks.len()];
-    if let Some((sig, detail, wit)) = restart_case(&mut r, &args, my_k, &mut rng) {
+    // shards 1, 4, 7: an instance with more than five CAs
+    let large = args.shard % 3 == 1;
+    if let Some((sig, detail, wit)) =
+        restart_case(&mut r, &args, my_k, &mut rng, large)
+    {
         r.violation(&sig, &detail, wit);
     }
     // Part D: the real start-up path on a killed daemon's directory
